@@ -1,6 +1,7 @@
 (** Evaluator glue for C18: runs the model on what the harness ran the real
     code on. *)
 From AGH Require Import Base.Run Model.Schedule.
+From AGH Require Export Model.ScheduleText.
 Local Open Scope Z_scope.
 
 Definition mk (s e : Z) := {| dr_start := s; dr_end := e |}.
@@ -18,12 +19,53 @@ Inductive case :=
      -1 accepted, else 10*weekday + error code; and the re-marshalled days *)
   | CJson (days : list (option (Z * Z))) (obs_err : Z) (obs_back : list (option (Z * Z)))
   (* YAML document with the days in ns *)
-  | CYaml (days : list (Z * Z)) (obs_err : Z) (obs_back : list (Z * Z)).
+  | CYaml (days : list (Z * Z)) (obs_err : Z) (obs_back : list (Z * Z))
+  (* text handed to timeutil.Duration.UnmarshalText; observed: code 0 and the
+     value, or 1 invalid / 2 missing unit / 3 unknown unit (value 0) *)
+  | CDurText (s : bytes) (obs_code obs_val : Z)
+  (* int64 nanoseconds; observed timeutil.Duration(d).String() ([cut]) or
+     time.Duration(d).String() *)
+  | CDurPrint (cut : bool) (d : Z) (obs : bytes)
+  (* text handed to aghhttp.JSONDuration.UnmarshalJSON; observed: code 0 and
+     the value, or 1 error *)
+  | CMsText (s : bytes) (obs_code obs_val : Z)
+  (* observed aghhttp.JSONDuration(d).MarshalJSON() *)
+  | CMsPrint (d : Z) (obs : bytes)
+  (* YAML / JSON document as the duration texts its decoder handed over, in
+     document order; observed: -1 accepted, 10*weekday + range error code,
+     100 + syntax error code; when accepted the seven ranges (ns) and the
+     texts of the re-marshalled document *)
+  | CYamlText (fs : list field) (obs_err : Z) (obs_days : list (Z * Z)) (obs_back : list text_day)
+  | CJsonText (fs : list field) (obs_err : Z) (obs_days : list (Z * Z)) (obs_back : list text_day).
 
 Definition eqb_zz (a b : Z * Z) := (fst a =? fst b) && (snd a =? snd b).
 
 Definition res_code (r : (Z * range_err) + weekly) : Z :=
   match r with inl (i, e) => 10 * i + err_code e | inr _ => -1 end.
+
+Definition text_res_code (r : text_err + weekly) : Z :=
+  match r with
+  | inl (TSyntax c) => 100 + c
+  | inl (TRange i e) => 10 * i + err_code e
+  | inr _ => -1
+  end.
+
+Definition eqb_bb (a b : bytes * bytes) := eqb_bytes (fst a) (fst b) && eqb_bytes (snd a) (snd b).
+
+Definition parse_res_ok (r : Z + Z) (code val : Z) : bool :=
+  match r with
+  | inl c => (c =? code) && (val =? 0)
+  | inr v => (code =? 0) && (v =? val)
+  end.
+
+Definition doc_ok (r : text_err + weekly) (print : Z -> bytes)
+    (e : Z) (days : list (Z * Z)) (back : list text_day) : bool :=
+  (text_res_code r =? e) &&
+  match r with
+  | inr w => eqb_list eqb_zz (marshal_yaml w) days &&
+             eqb_list (eqb_option eqb_bb) (marshal_text print w) back
+  | inl _ => true
+  end.
 
 Definition case_ok (c : case) : bool :=
   match c with
@@ -43,6 +85,12 @@ Definition case_ok (c : case) : bool :=
       | inr w => eqb_list eqb_zz (marshal_yaml w) back
       | inl _ => true
       end
+  | CDurText s code val => parse_res_ok (parse_yaml_dur s) code val
+  | CDurPrint cut d obs => eqb_bytes (if cut then tu_string d else duration_string d) obs
+  | CMsText s code val => parse_res_ok (parse_json_dur s) code val
+  | CMsPrint d obs => eqb_bytes (print_ms_text d) obs
+  | CYamlText fs e days back => doc_ok (unmarshal_fields parse_yaml_dur 7 fs) tu_string e days back
+  | CJsonText fs e days back => doc_ok (unmarshal_fields parse_json_dur 7 fs) print_ms_text e days back
   end.
 
 Definition mismatches := Base.Run.mismatches case_ok.
@@ -55,4 +103,19 @@ Definition explain (c : case) :=
   | CYaml days _ _ =>
       (res_code (unmarshal_yaml days),
        match unmarshal_yaml days with inr w => marshal_yaml w | _ => [] end)
+  | CDurText s _ _ =>
+      (match parse_yaml_dur s with inl c => c | inr _ => 0 end,
+       match parse_yaml_dur s with inl _ => [] | inr v => [(v, 0)] end)
+  | CDurPrint cut d _ =>
+      (0, map (fun b => (Z.of_N b, 0)) (if cut then tu_string d else duration_string d))
+  | CMsText s _ _ =>
+      (match parse_json_dur s with inl c => c | inr _ => 0 end,
+       match parse_json_dur s with inl _ => [] | inr v => [(v, 0)] end)
+  | CMsPrint d _ => (0, map (fun b => (Z.of_N b, 0)) (print_ms_text d))
+  | CYamlText fs _ _ _ =>
+      let r := unmarshal_fields parse_yaml_dur 7 fs in
+      (text_res_code r, match r with inr w => marshal_yaml w | _ => [] end)
+  | CJsonText fs _ _ _ =>
+      let r := unmarshal_fields parse_json_dur 7 fs in
+      (text_res_code r, match r with inr w => marshal_yaml w | _ => [] end)
   end.
